@@ -163,6 +163,7 @@ def replay_known(ctx, binp):
                           % (kv.get("recreated_depth"), kv.get("files")),
                           open(os.path.join(ROOT, "corpus", "C08", "known", "orphan_resurrect.sched")).read())
     topic_delete_replays(ctx, binp, res)
+    sync_every_replays(ctx, binp, res)
     ctx.corr["hook_replays"] = res
 
 
@@ -190,7 +191,8 @@ def topic_delete_shape(ctx):
         return re.findall(r'"((?:[^"\\]|\\.)*)"', m.group(1)) if m else []
     shape = {"subGuard": fact("subGuard") == ["if (channel.ephemeral && channel.Exiting()) || topic.Exiting()"],
              "ownUnlink": fact("deleteTopicStmts") == ["if err == errExiting", "if n.topicMap[topicName] == topic"],
-             "chanOwnUnlink": fact("deleteChanStmts") == ["if t.channelMap[channelName] == channel"]}
+             "chanOwnUnlink": fact("deleteChanStmts") == ["if t.channelMap[channelName] == channel"],
+             "syncEveryValidated": fact("syncEveryGuard") == ["if opts.SyncEvery < 1"]}
     ctx.corr["topic_delete_model_of_tree"] = shape
     return shape
 
@@ -224,6 +226,46 @@ def topic_delete_replays(ctx, binp, res):
         if bad:
             k = key + (":despite-fix" if guard and shape.get(guard) else "")
             ctx.violation(k, "%s: %s" % (name, obs), sched + "# observed: " + obs + "\n")
+
+
+KEY_SYNC0 = "sync-every-zero-delete-leaves-meta-file"
+
+
+def sync_every_replays(ctx, binp, res):
+    """--sync-every reaches go-diskqueue unvalidated unless nsqd.New refuses non-positive values (tie
+    sync_every_validation_shape).  0: every loop pass syncs → Empty's metadata removal is undone → a deleted
+    topic/channel leaves <name>.diskqueue.meta.dat (open finding); negative and 1 must be clean."""
+    shape = topic_delete_shape(ctx)
+    for name in ("sync_every_zero_delete", "sync_every_negative_delete", "sync_every_one_delete"):
+        rc, kv, out = run_sched(ctx, binp, name, timeout=60)
+        res[name] = kv or {"error": out[-300:]}
+        sched = open(os.path.join(ROOT, "corpus", "C08", "known" if name == "sync_every_zero_delete" else "", name + ".sched")).read()
+        if not kv:
+            if rc == -9 or "test timed out" in out:
+                ctx.violation("daemon-hangs:" + name, "%s did not finish" % name, sched)
+            else:
+                ctx.broken_ties.append("replay %s did not run (rc=%s)" % (name, rc))
+            continue
+        ctx.evaluations += 1
+        ctx.count_case("sched:" + name, nontrivial=True)
+        obs = " ".join("%s=%s" % x for x in sorted(kv.items()))
+        if kv.get("new_refused") == "true":
+            if name == "sync_every_one_delete" or not shape.get("syncEveryValidated"):
+                ctx.violation("sync-every-refused:" + name, "nsqd.New refused the configuration: " + obs, sched + "# observed: " + obs + "\n")
+            continue
+        if shape.get("syncEveryValidated"):
+            ctx.violation("sync-every-accepted-despite-validation:" + name, obs, sched + "# observed: " + obs + "\n")
+            continue
+        left = [x for x in (kv.get("chan_files_left", "") + "," + kv.get("topic_files_left", "")).split(",") if x]
+        if kv.get("delete_chan") != "ok" or kv.get("delete_topic") != "ok":
+            ctx.violation("daemon-hangs:" + name, obs, sched + "# observed: " + obs + "\n")
+        elif kv.get("recreated_depth", "0") != "0":
+            ctx.violation("recreated-not-empty:" + name, obs, sched + "# observed: " + obs + "\n")
+        elif left:
+            if name == "sync_every_zero_delete" and all(x.endswith(".diskqueue.meta.dat") for x in left):
+                ctx.violation(KEY_SYNC0, "deleted channel and topic leave %s (--sync-every 0)" % left, sched + "# observed: " + obs + "\n")
+            else:
+                ctx.violation("files-left-behind:" + name, "deleted channel/topic leave %s" % left, sched + "# observed: " + obs + "\n")
 
 
 def read_streams(ctx, name):
